@@ -138,3 +138,38 @@ CLAIMS["C15"] = dict(
          "lookup, per-transition event counts per interval, rows differ by vMat.counts. /repo violates the property (exact-mode counts; IndexError for a path without events) until "
          "proposed_fixes/C15-exact-interval-counts.diff and C15-path-without-events.diff are applied (without the first set LEGACY_EXACT_COUNTS=True in harness/props/stoch_common.py).",
     technique="Lean 4 list induction (prefix sums selected by time, sum exchange) + differential replay of real gridded runs")
+CLAIMS["C13"] = dict(
+    text="PARTIAL. Proved in Lean for every number of states nS and parameters nP (model lean/Pygom/Sens.lean mirrors ode_and_sensitivity, "
+         "ode_and_sensitivityIV, sens_jacobian_state, the *_jacobian block assembly and the vec/mat reshapes as index arithmetic): the augmented "
+         "right-hand sides are f, J.S+G and J.S0 in the documented layouts (by parameter, by state, initial values in 'F' order); every entry (r,c) of "
+         "ode_and_sensitivity_jacobian (by parameter) and of ode_and_sensitivityIV_jacobian (also nP = 0) is the HasDerivAt-derivative of component r of "
+         "the corresponding right-hand side in z_c; the by-state matrix AS CODED is not (counterexample by decide, nS=2, nP=3; confirmed on the real code "
+         "against finite differences) while the proposed repair is; reshape round trips. ASSUMED, not proved: that integrating these variational "
+         "equations yields dx(t)/dtheta and dx(t)/dx0 (classical smooth-dependence theorem, not in Mathlib) - checked on every run against finite "
+         "differences of 1e-12 reference solutions. The model is tied to the code per run: real functions vs the Lean driver on the exact rational "
+         "J, G, dJ, dG of each random model, and a Lean-free oracle (explicit-loop J.S+G; Richardson finite differences of the real right-hand sides).",
+    note="The derivative theorems take as hypotheses that jacobian/grad/diff_jacobian/grad_jacobian are the partial derivatives they are named after "
+         "(C03's theorems; to be discharged there) and that mixed second partials commute (C^2 right-hand side; symmetry of diff_jacobian is re-checked "
+         "exactly on every generated model). Trusted: Lean kernel + Mathlib, harness generator/printer/interpreter, driver JSON glue, float tolerances "
+         "(1e-9 model tie, 1e-6 finite differences, 1e-5 integrated sensitivities). Defects: by_state=True Jacobian wrong (proposed_fixes/C13-by-state-jacobian.diff), "
+         "one-state models raised (fixed 0a7e442).",
+    technique="Lean 4: index arithmetic (omega/simp) for layouts, HasDerivAt product rule over finite sums for the block Jacobians, decide for the "
+              "counterexample + model/code correspondence + finite-difference oracle")
+CLAIMS["C20"] = dict(
+    text="Proved in Lean for every number of observations, observed states and free parameters: sens_to_jtj returns "
+         "jtj[a][b] = sum_i sum_j w_ij^2 S_ija S_ijb, which is symmetric and positive semi-definite (Mathlib Matrix.PosSemidef). Proved: what the coded "
+         "forward-forward right-hand side computes (J.X_ab + sum_kl d2f/dx_k dx_l S_ka S_lb), that the TRUE second-order equation (total derivative of "
+         "J.S_a + G_a in theta_b) has three more groups of terms, that the two agree exactly when those vanish, and a counterexample (f = theta*x) showing "
+         "the code omits them. Proved: the Hessian assembly as coded has the wrong sign on its second-order term (counterexample) and is the derivative "
+         "of gradient only when the second-order sensitivities of the observed states vanish; with the proposed one-line repair it is the derivative of "
+         "gradient given second-order sensitivities. Per run, on SIR/SEIR/SIR_norm and random bounded models: jtj vs the sum of outer products of "
+         "finite-difference sensitivities of reference solutions, symmetry, eigenvalues; hessian vs central differences of the reference gradient - it must "
+         "agree on models without mixed state-parameter second derivatives and otherwise equal the value the Lean model of the code predicts "
+         "(known finding C20-hessian-mixed-terms); any other discrepancy is a violation.",
+    note="Assumed (as in C13): integrating a sensitivity system yields the derivative of the solution; scipy integrators within tolerance; finite-difference "
+         "Hessian of the reference cost accurate to ~1e-6 relative (comparisons at 1e-3). hessian(theta) is NOT claimed to equal the second derivatives of the "
+         "cost on models with mixed terms: recorded finding, suppressed only when the observed value matches the model-predicted one. Defects found: sign of the "
+         "second-order term (proposed_fixes/C20-hessian-second-order-sign.diff), per-observation weight vector for one observed state raises "
+         "(proposed_fixes/C20-weight-vector-single-state.diff); order-related failures depend on the C07 index-order repair (signatures *:sens-index-order).",
+    technique="Lean 4: finite-sum algebra, Matrix.posSemidef_conjTranspose_mul_self, HasDerivAt product rule, decide counterexamples + model/code "
+              "correspondence + finite-difference oracle + known-finding matching by model-predicted value")
